@@ -557,9 +557,11 @@ type Memory struct {
 	// global lock, needed mostly for [Memory.MachineRecord].
 	mx               sync.Mutex
 	cacheTrackedIdxs []int
-	cacheDbIdxs      map[string]uint
-	tr               *tracer
-	lastRec          *Time
+	// the previous forked write, requires [Memory.mx]
+	lastWrite   <-chan struct{}
+	cacheDbIdxs map[string]uint
+	tr          *tracer
+	lastRec     *Time
 	// TODO fix sqlite3: constraint failed:
 	//  UNIQUE constraint failed: times.id, times.machine_id
 	nextId atomic.Uint64
@@ -1029,9 +1031,16 @@ func (m *Memory) writeDb(rLocked bool) <-chan struct{} {
 	l := len(times)
 	m.SavePending.Add(-int32(l))
 
+	prev := m.lastWrite
+	m.lastWrite = done
+
 	// fork
 	go m.savePool.Go(func() error {
 		defer close(done)
+		// keep the batches in order (the machine record travels with them)
+		if prev != nil {
+			<-prev
+		}
 		if m.disposed.Load() {
 			return nil
 		}
